@@ -699,7 +699,7 @@ type TEAdvCase struct {
 	P        Pt     `json:"p"`
 	S        string `json:"s"`
 	Claim    string `json:"claim"`    // neg | addB | id | next | rand
-	Strategy string `json:"strategy"` // baseline | point-only | zero-subscalars | flip-bit | perturb | decomp-of-claim
+	Strategy string `json:"strategy"` // baseline | point-only | zero-subscalars | flip-bit | perturb | zero-one | decomp-of-claim | free-k
 	K        int    `json:"k"`
 }
 
@@ -789,15 +789,27 @@ func runTEAdv(c TEAdvCase) ev.Outcome {
 			case "zero-one":
 				call.Outputs[c.K%len(call.Outputs)].SetUint64(0)
 				return true
-			case "decomp-of-claim":
-				if sPrime == nil || sPrime.Sign() == 0 {
+			case "decomp-of-claim", "free-k":
+				if sPrime == nil || new(big.Int).Mod(sPrime, cv.Order).Sign() == 0 {
 					return false
 				}
 				if h := hintByName(call.Name); h != nil {
 					in := []*big.Int{new(big.Int).Set(sPrime), new(big.Int).Set(call.Inputs[1])}
-					if h(call.Mod, in, call.Outputs) == nil {
-						return true
+					if h(call.Mod, in, call.Outputs) != nil {
+						return false
 					}
+					if c.Strategy == "free-k" {
+						// the overflow counter k is an unbounded native hint output: solve
+						// s1 +- s2*s == k*Order in the native field for the *actual* scalar s
+						t := new(big.Int).Mul(call.Outputs[1], s)
+						if call.Outputs[2].Sign() != 0 {
+							t.Neg(t)
+						}
+						t.Add(t, call.Outputs[0])
+						t.Mul(t, new(big.Int).ModInverse(cv.Order, call.Mod))
+						call.Outputs[3].Mod(t, call.Mod)
+					}
+					return true
 				}
 			}
 		}
@@ -829,7 +841,7 @@ func TestAdversaryTwistedEdwards(t *testing.T) {
 		c.P = genTEPoint(cv, t, "p", nil, true).pt()
 		c.S = genTEScalar(cv, t, "s")
 		c.Claim = rapid.SampledFrom([]string{"neg", "addB", "id", "next", "rand"}).Draw(t, "claim")
-		c.Strategy = rapid.SampledFrom([]string{"baseline", "point-only", "zero-subscalars", "flip-bit", "perturb", "zero-one", "decomp-of-claim"}).Draw(t, "strategy")
+		c.Strategy = rapid.SampledFrom([]string{"baseline", "point-only", "zero-subscalars", "flip-bit", "perturb", "zero-one", "decomp-of-claim", "free-k"}).Draw(t, "strategy")
 		c.K = rapid.IntRange(0, 3).Draw(t, "k")
 		return c
 	})
@@ -839,7 +851,7 @@ func TestAdversaryTwistedEdwards(t *testing.T) {
 			rec.Discarded("te-adv:excluded shape of open finding " + sig)
 			return
 		}
-		if _, ok := open(SigTEZeroSubscalars); ok && c.Strategy == "zero-subscalars" {
+		if _, ok := open(SigTEZeroSubscalars); ok && teAltersHalfGCD(c.Strategy) {
 			rec.Discarded("te-adv:excluded shape of open finding " + SigTEZeroSubscalars)
 			return
 		}
